@@ -4,7 +4,8 @@ CONSTANT Depth
 VARIABLE hist
 gv == <<vars, hist>>
 H(op, c, f) == hist' = Append(hist, [op |-> op, c |-> c, f |-> f])
-GNext ==
+Done == Len(hist) = Depth /\ reloadPc = "idle"
+GNext == ~Done /\ (
   \/ /\ Len(hist) < Depth /\ reloadPc = "idle"
      /\ \/ \E f \in Files : WriteFile(f) /\ H("write", "", f)
         \/ ReloadParse /\ H("reload", "", "")
@@ -14,7 +15,8 @@ GNext ==
         \/ Pause /\ H("pause", "", "")
         \/ Resume /\ H("resume", "", "")
         \/ \E c \in Clients : Park(c) /\ H("park", c, "")
-  \/ ReloadApply /\ UNCHANGED hist
+        \/ \E c \in Clients : Probe(c) /\ H("probe", c, "")
+  \/ ReloadApply /\ UNCHANGED hist)
 GSpec == Init /\ hist = <<>> /\ [][GNext]_gv
-Emit == (Len(hist) = Depth) => PrintT(<<"SCENARIO", ToJson(hist)>>)
+Emit == Done => PrintT(<<"SCENARIO", ToJson(hist)>>)
 =============================================================================
